@@ -168,7 +168,10 @@ def evaluate(cols, variant, params, functions, graph, types, canon=None, targets
 
     n = len(cols["p_id"])
     pids = list(cols["p_id"])
-    targets = targets or graph["order"]
+    if targets == "default":
+        targets = None  # the API's own default target list
+    else:
+        targets = targets or graph["order"]
     id_nodes = compare.endogenous_id_nodes()
     if canon is None:
         canon = run_variant(cols, {"order": list(range(n))}, params, functions, targets, types)
@@ -278,6 +281,21 @@ def explore(run_seed: int, cfg: dict) -> dict:
                 small["original_rows"] = n
                 out["violations"].append(small)
                 break  # one violation per population is enough
+        if not out["violations"] and n > 1:
+            # the API's default target list (targets=None) takes its own path through the interface
+            o = list(range(n))
+            r.shuffle(o)
+            if o != list(range(n)):
+                variant = {"order": o, "index": r.choice(INDEX_KINDS), "form": r.choice(FORMS), "iseed": r.randrange(1 << 20), "debug": r.random() < 0.5}
+                rep = evaluate(cols, variant, params, functions, graph, types, targets="default")
+                case["orders"].append("default_targets")
+                for kk in "ECF":
+                    case[kk] += rep["counts"][kk]
+                if rep["violating"]:
+                    small = shrink({"date": date, "cols": cols, "variant": variant, "node": rep["violating"][0], "targets": "default"}, params, functions, graph, types, budget=cfg.get("shrink_budget", 120))
+                    small["family"] = "default_targets"
+                    small["original_rows"] = n
+                    out["violations"].append(small)
         if cfg.get("sample") and k == 0:
             case["sample"] = {"date": date, "cols": {c: v for c, v in cols.items() if len(set(v)) > 1 or c in ("p_id", "hh_id")}, "orders": case["orders"][:]}
         out["cases"].append(case)
@@ -372,7 +390,7 @@ def exhaustive(run_seed: int, cfg: dict) -> dict:
 
 
 def _fails(case, params, functions, graph, types):
-    targets = id_targets(graph) if case.get("targets") == "ids" else None
+    targets = id_targets(graph) if case.get("targets") == "ids" else "default" if case.get("targets") == "default" else None
     rep = evaluate(case["cols"], case["variant"], params, functions, graph, types, targets=targets, isolate=case.get("targets") != "ids")
     return case["node"] in rep["violating"], rep
 
